@@ -218,6 +218,7 @@ type qconf struct {
 	closed       bool
 	limit        int
 	blockedPeers int // senders blocked on the (full or unbuffered) channel
+	rival        int // 1 = a competing plain receiver takes one value, 2 = a second queued receiver runs concurrently
 }
 
 func (c qconf) String() string {
@@ -225,12 +226,23 @@ func (c qconf) String() string {
 	if c.full {
 		n = "RecvQueuedFull"
 	}
+	if c.rival > 0 {
+		return fmt.Sprintf("%s/cap=%d/fill=%d/closed=%v/limit=%d/rival=%d", n, c.capN, c.fill, c.closed, c.limit, c.rival)
+	}
 	return fmt.Sprintf("%s/cap=%d/fill=%d/closed=%v/limit=%d/blocked-senders=%d", n, c.capN, c.fill, c.closed, c.limit, c.blockedPeers)
+}
+
+// qbound: all interleavings, except for two long concurrent receivers (preemption bound 3)
+func qbound(c qconf) int {
+	if c.rival == 2 {
+		return 3
+	}
+	return -1
 }
 
 func queuedScenario(c qconf) schk.Scenario {
 	return schk.Scenario{
-		Name: c.String(), Bound: -1, RaceBound: -2, ExpectDeadlock: true,
+		Name: c.String(), Bound: qbound(c), RaceBound: -2, ExpectDeadlock: true,
 		Body: func(s *vrt.Sched) any {
 			r := &rec{ch: make(chan int, c.capN)}
 			for i := 0; i < c.fill; i++ {
@@ -257,6 +269,20 @@ func queuedScenario(c qconf) schk.Scenario {
 			for p := 0; p < c.blockedPeers; p++ {
 				p := p
 				s.Spawn("peer-send", func() { vrt.Send(r.ch, 7+p); r.peerSent = append(r.peerSent, 7+p) })
+			}
+			switch c.rival {
+			case 1:
+				s.Spawn("rival-recv", func() {
+					if v, ok := vrt.Recv2(r.ch); ok {
+						r.peerGot = append(r.peerGot, v)
+					}
+				})
+			case 2:
+				s.Spawn("rival-queued", func() {
+					vrt.NoBlock("RecvQueued*, which must never block")
+					r.peerGot = chans.RecvQueued(r.ch, c.limit)
+					vrt.NoBlock("")
+				})
 			}
 			return r
 		},
@@ -293,7 +319,29 @@ func queuedScenario(c qconf) schk.Scenario {
 					stop = true
 				}
 			}
-			out := fmt.Sprintf("got=%v left=%v peerSent=%v", got, left, r.peerSent)
+			out := fmt.Sprintf("got=%v left=%v peerSent=%v rivalGot=%v", got, left, r.peerSent, r.peerGot)
+			if c.rival > 0 {
+				// two receivers share the queue: every queued value ends up with exactly one of them or
+				// stays in the channel, each receiver sees its values in FIFO order, nothing is invented
+				seen := map[int]int{}
+				for _, l := range [][]int{got, r.peerGot, left} {
+					for i, v := range l {
+						seen[v]++
+						if i > 0 && l[i-1] >= v {
+							return schk.Failf("queued-order-or-invented", "%s: a receiver saw values out of order: %s", c, out), ""
+						}
+					}
+				}
+				for _, v := range r.prefill {
+					if seen[v] != 1 {
+						return schk.Failf("queued-lost", "%s: queued value %d is accounted for %d times: %s", c, v, seen[v], out), ""
+					}
+				}
+				if len(seen) != len(r.prefill) || len(got) > c.limit {
+					return schk.Failf("queued-invented", "%s: %s", c, out), ""
+				}
+				return nil, out
+			}
 			if len(got) > c.limit {
 				return schk.Failf("queued-over-limit", "%s returned %d values: %s", c, len(got), out), ""
 			}
@@ -445,14 +493,27 @@ func main() {
 			for fill := 0; fill <= capN; fill++ {
 				for _, closed := range []bool{false, true} {
 					for limit := 0; limit <= ev.Pick(r, 3, 4); limit++ {
-						scs = append(scs, queuedScenario(qconf{full, capN, fill, closed, limit, 0}))
+						scs = append(scs, queuedScenario(qconf{full, capN, fill, closed, limit, 0, 0}))
 						if !closed && fill == capN {
-							scs = append(scs, queuedScenario(qconf{full, capN, fill, closed, limit, 1}))
+							scs = append(scs, queuedScenario(qconf{full, capN, fill, closed, limit, 1, 0}))
 							if capN <= 1 {
-								scs = append(scs, queuedScenario(qconf{full, capN, fill, closed, limit, 2}))
+								scs = append(scs, queuedScenario(qconf{full, capN, fill, closed, limit, 2, 0}))
 							}
 						}
 					}
+				}
+			}
+		}
+	}
+	// large queues (a batch path behind a fill-level threshold) alone and with a rival receiver
+	for _, full := range []bool{false, true} {
+		for _, capN := range []int{15, 16, 17, 33, 64} {
+			for _, limit := range []int{capN - 1, capN, capN + 3} {
+				scs = append(scs, queuedScenario(qconf{full: full, capN: capN, fill: capN, limit: limit}))
+				scs = append(scs, queuedScenario(qconf{full: full, capN: capN, fill: capN, closed: true, limit: limit}))
+				scs = append(scs, queuedScenario(qconf{full: full, capN: capN, fill: capN, limit: limit, rival: 1}))
+				if capN <= 17 {
+					scs = append(scs, queuedScenario(qconf{full: full, capN: capN, fill: capN, limit: limit, rival: 2}))
 				}
 			}
 		}
